@@ -518,8 +518,17 @@ def main(argv=None) -> int:
     checks = sum(int(r.get("z3_checks", 0)) for r in results if r)
     zsec = sum(float(r.get("z3_seconds", 0)) for r in results if r)
     samples: List[Any] = []
+    # spread the samples over the query groups and over the harness functions
+    seen_fn: Dict[str, int] = {}
+    spread = []
     for r in results:
-        if r and len(samples) < 6:
+        if r and (r.get("twin_call") or r.get("tally_samples")):
+            k = seen_fn.get(r["fn"], 0)
+            seen_fn[r["fn"]] = k + 1
+            spread.append((k, r))
+    spread.sort(key=lambda kr: kr[0])
+    for _, r in spread[:2 * max(1, len(seen_fn))] + spread[len(spread) // 2:len(spread) // 2 + 3]:
+        if r and len(samples) < 10:
             if r.get("twin_call"):
                 samples.append({"group": r["name"], "shape": _jsonable(r.get("shape")),
                                 "model_of_one_path": _jsonable(r["twin_call"][1])})
